@@ -75,10 +75,18 @@ structure Env (α : Type) where
   lensZ : List α
   zMax : α
 
+/-- the guard on the Hubble constant: distances scale as `1/H0`, so a cosmology built from the sampled parameters
+    has no finite distances at `H0 ≤ 0` (the edge of a prior box that reaches zero).  `none`: the distances do not come
+    from a sampled `h0` (tabulated distances, fixed cosmology, no cosmology) -/
+def h0OK (h0 : Option α) : Bool :=
+  match h0 with
+  | some h => decide (0.0 < h)
+  | none => true
+
 /-- `CosmoLikelihood.likelihood`: value class and whether the data likelihoods were evaluated.
-    `om`, `ok`: the values `args2kwargs` yields (C01); `lens`, `sne`, `kde`, `prior`: the external terms
+    `om`, `ok`, `h0`: the values `args2kwargs` yields (C01); `lens`, `sne`, `kde`, `prior`: the external terms
     (only forced when reached) -/
-def likelihood (big : α) (env : Env α) (args : List α) (om ok : α)
+def likelihood (big : α) (env : Env α) (args : List α) (om ok : α) (h0 : Option α)
     (lens : Unit → List (FV α)) (sne kde prior : Unit → Option (FV α)) :
     Except String (FV α × Bool) :=
   match firstOutside args env.lower env.upper with
@@ -86,6 +94,7 @@ def likelihood (big : α) (env : Env α) (args : List α) (om ok : α)
   | .ok (some _) => .ok (.ninf, false)
   | .ok none =>
     if env.olcdm && !(guardOK om ok env.lensZ env.zMax) then .ok (.ninf, false)
+    else if !(h0OK h0) then .ok (.ninf, false)
     else
       let l := (lens ()).foldl (fun acc t => FV.add acc (nanToNum big t)) (.fin 0.0)
       let a := match sne () with | some x => FV.add l x | none => l
